@@ -58,3 +58,20 @@ gproof! { fn c04_refcnt_thin_inc() {
     assert!(p == <ThinArc<u16, u32> as RefCnt>::as_ptr(&t) && rd(c0) == n + 1 && vrt::ga(1) && vrt::gd(0));
     core::mem::forget(t);
 } }
+
+// @h props=C04,C01 features=unsize,arc-swap fuc=RefCnt::dec(Arc),RefCnt::dec(ThinArc) note="provided RefCnt::dec: exactly one owner fewer; the last one destroys and frees"
+gproof! { fn c04_refcnt_dec() {
+    let n = any_count();
+    let x = mk(Tr8::new(), n);
+    let (b0, c0, id) = (base(&x), cw(&x), x.id);
+    let p = <Arc<Tr8> as RefCnt>::into_ptr(x);
+    unsafe { <Arc<Tr8> as RefCnt>::dec(p); }
+    if n == 1 { assert!(!vrt::g_live(b0) && vrt::dropped(id) && vrt::drops() == 1 && vrt::gd(1)); } else { assert!(rd(c0) == n - 1 && vrt::drops() == 0 && vrt::gd(0)); }
+    let m = any_count();
+    let (t, len, h, buf) = crate::thin_arc::kani_h::mk_thin_u32(m);
+    let (tb, tc) = (crate::thin_arc::kani_h::tbase(&t), crate::thin_arc::kani_h::tcw(&t));
+    let d0 = vrt::g_deallocs();
+    let tp = <ThinArc<u16, u32> as RefCnt>::into_ptr(t);
+    unsafe { <ThinArc<u16, u32> as RefCnt>::dec(tp); }
+    if m == 1 { assert!(!vrt::g_live(tb) && vrt::g_deallocs() == d0 + 1 && vrt::g_ok()); } else { assert!(rd(tc) == m - 1 && vrt::g_deallocs() == d0); }
+} }
